@@ -922,6 +922,16 @@ def c12Result (st : C12St) (ln : Nat) (h s : Nat) (obs : List String) : C12St :=
   | ["err", "refused"] => c12SetStatus st h s (fun c => { c with status := "refused" })
   | _ => st
 
+/-- The link between hosts `x` and `y` is explicitly partitioned (`both`), or only the direction `x → y`: every
+pending connect whose SYN travels in a cut direction and has not been delivered yet is doomed. -/
+def c12Cut (st : C12St) (ln x y : Nat) (both : Bool) : C12St :=
+  { st with conns := st.conns.map (fun c =>
+      match c.loc, addrHost c.dst with
+      | some src, some d =>
+        if c.status == "pending" && ((c.host == x && d == y) || (both && c.host == y && d == x)) && c.host != d &&
+           !st.synDelivered.any (fun p => p.1 < ln && p.2 == src) then { c with doomed := true } else c
+      | _, _ => c) }
+
 def c12Step (st : C12St) (x : Nat × List String × List String) : C12St :=
   let (ln, op, obs) := x
   match op with
@@ -959,14 +969,11 @@ def c12Step (st : C12St) (x : Nat × List String × List String) : C12St :=
         | none => st
       { st with accepts := st.accepts ++ [(loc, peer, false)] }
     | _ => st
-  | ["ctl", "partition", a, b] =>
-    let (x, y) := (hostTok a, hostTok b)
-    { st with conns := st.conns.map (fun c =>
-        match c.loc, addrHost c.dst with
-        | some src, some d =>
-          if c.status == "pending" && ((c.host == x && d == y) || (c.host == y && d == x)) &&
-             !st.synDelivered.any (fun p => p.1 < ln && p.2 == src) then { c with doomed := true } else c
-        | _, _ => c) }
+  | ["ctl", "partition", a, b] => c12Cut st ln (hostTok a) (hostTok b) true
+  | [_, "net_partition", a, b] => if obs == ["ok"] then c12Cut st ln (hostTok a) (hostTok b) true else st
+  -- one direction cut: a request travelling in that direction — in flight or ready but not handed over — is lost
+  | ["ctl", "partition1", a, b] => c12Cut st ln (hostTok a) (hostTok b) false
+  | [_, "net_partition1", a, b] => if obs == ["ok"] then c12Cut st ln (hostTok a) (hostTok b) false else st
   | ["ctl", "mark", "settled"] => { st with settled := true }
   | [h, "count"] =>
     if st.settled then
@@ -1303,7 +1310,24 @@ def oracleC05 (lines : List String) : OResult :=
   let cfgT := match lines.find? (·.startsWith "CFG ") with | some l => toks l | none => []
   let tick := if kvNat cfgT "tick_us" 0 > 0 then kvNat cfgT "tick_us" 0 * 1000 else kvNat cfgT "tick_ms" 1 * 1000000
   let st := (opObsPairs lines).foldl c05Step { tick := tick }
-  let res := { st.res with cov := (if st.done > 5 then ["o:steps"] else []) ++ (if tick % 1000000 != 0 then ["o:subms"] else []) }
+  -- destructors run by crash / bounce (between steps) read `sim_elapsed`: it must be the step boundary, however
+  -- much real time the controller let pass (`stall`)
+  let (_, _, gd, gbad) := lines.foldl (fun (acc : Nat × Nat × Nat × Option (Nat × String)) l =>
+    let (ln, done, gd, bad) := acc
+    match toks l with
+    | ["OP", "ctl", "step"] => (ln + 1, done + 1, gd, bad)
+    | ["EV", "guarddrop", h, tv] =>
+      (match (tv.drop 2).toString.toNat? with
+       | some ns => if ns == done * tick || bad.isSome then (ln + 1, done, gd + 1, bad) else
+           (ln + 1, done, gd + 1, some (ln, s!"a destructor of h{h} run by crash / bounce read sim_elapsed = {ns} ns at virtual time {done * tick} ns"))
+       | none => (ln + 1, done, gd, bad))      -- `t=-`: dropped together with the Sim, outside any simulation
+    | _ => (ln + 1, done, gd, bad)) (1, 0, 0, none)
+  let stalled := lines.any (fun l => l.startsWith "OP ctl stall")
+  let res0 := match gbad with
+    | some (ln, msg) => if st.res.ok then { st.res with ok := false, line := ln, detail := msg } else st.res
+    | none => st.res
+  let res := { res0 with cov := (if st.done > 5 then ["o:steps"] else []) ++ (if tick % 1000000 != 0 then ["o:subms"] else []) ++
+                                (if gd > 0 then ["o:guarddrop"] else []) ++ (if gd > 0 && stalled then ["o:stalled-teardown"] else []) }
   if !res.ok && tick % 1000000 != 0 then { res with pattern := "F-C05-1" } else res
 
 /-! ### C04 -/
